@@ -692,3 +692,54 @@ RULES = {
            "instances: setattr on every public field and byte_size, array attribute types, caller-side mutation of argument lists between two "
            "serialisations, twice-serialise for constructed and deserialised instances. distinct = (class bucket, outcome, number of list args)",
 }
+
+
+# ============================================================================================
+# C17 — ill-formed specifications are rejected
+# ============================================================================================
+
+def run_c17(ctx: Ctx):
+    rng = ctx.rng
+    n = n_spec = 0
+    nsp = int(__import__("os").environ.get("VERIF_NSPEC", 0)) or (120 if ctx.thorough else 6)
+    for idx, case in enumerate(gencheck.spec_stream(ctx, nsp)):
+        if not ctx.thorough and case.flags.get("catalogue") and idx % 2 == 1:
+            continue
+        base = genlib.GenRun(case.files)
+        try:
+            if base.error is not None:
+                continue   # only valid specifications are edited
+        finally:
+            base.cleanup()
+        n_spec += 1
+        for rule, placement, files in mutspec.all_edits(case.files, rng, per_rule_placements=3 if ctx.thorough else 2):
+            ed = Case(files, f"{case.tag}+{rule}@{placement}", dict(case.flags, rule=rule, placement=placement))
+            ed.run = genlib.GenRun(files)
+            try:
+                if ed.run.forest is None:
+                    continue
+                model = ctx.driver.ask1("gen load " + ed.run.forest)
+                real_rejects = ed.run.error is not None
+                n += 1
+                ctx.count(f"rule.{rule}")
+                ctx.count(f"placement.{placement}")
+                ctx.sig((rule, placement))
+                if not real_rejects:
+                    key = "accepted:" + rule
+                    fails(ctx, ed, f"ill-formed specification ({rule}, placed {placement}) is accepted by the generator", {"rule": rule,
+                          "placement": placement}, key=key)
+                    if not ctx.known_match(key):
+                        return
+                if real_rejects != model.startswith("err"):
+                    disagree(ctx, ed, f"edit {rule}@{placement}: real generator {'rejects: ' + repr(ed.run.error) if real_rejects else 'accepts'}, "
+                             f"model `{model[:120]}`", {"rule": rule, "placement": placement}, "compile error vs ProtocolCodeGenerator raising", "C17")
+                    return
+            finally:
+                close_case(ed)
+    ctx.part("valid specifications x rule-violating edits x placements", n, False, f"{n_spec} base specifications")
+
+
+RULES["C17"] = ("valid catalogue and random specifications x one rule-violating edit from a catalogue of ~90 rules (type, field, length, "
+                "chunk, optional, dummy, hard-coded value, enum, switch, packet, file-level rules) inserted at the start of an eligible body "
+                "per placement class (top level, inside <chunked>, inside a switch case, inside a case within a chunked section, first/second "
+                "file); observed: the real generator raises vs returns; compared with compile. distinct = (rule, placement)")
